@@ -311,6 +311,9 @@ impl RawSnap {
             let id = key_to_id(key);
             let diff = &delta.buf[to_usize(offset.clone())];
             let out = self.prepare_item(raw_type_id, id, diff.len())?;
+            if out.len() != diff.len() {
+                return Err(Error::DeltaDifferingSizes);
+            }
             let in_ = from.item(raw_type_id, id);
 
             apply_item_delta(in_, diff, out)?;
